@@ -83,7 +83,8 @@ NOPS = 20  # keep in step with sim/src/ops.rs
 def g_run(rng):
     """Thread churn: G successive generations of K short-lived threads (each joined before the next
     starts) draw a few multi-word tables; half of the runs push Miri's address-reuse rates to 1."""
-    j = _job("G", rng, K=rng.choice([1, 2, 4]), gens=rng.choice([3, 4, 6]), D=rng.choice([4, 8]), sizes=[rng.choice([7, 8, 8, 9])],
+    # D is mostly odd: a thread then exits in the middle of any 64-word batch a generator may keep
+    j = _job("G", rng, K=rng.choice([1, 2, 4]), gens=rng.choice([3, 4, 6]), D=rng.choice([3, 4, 5, 7, 8]), sizes=[rng.choice([7, 8, 8, 9])],
              types=rng.choice(["lut", "static", "both"]), main=rng.randint(0, 1), warm=rng.randint(0, 1), preempt=rng.choice(PREEMPT),
              **{"yield": rng.randint(0, 1)})
     if rng.random() < 0.5:
